@@ -2,6 +2,6 @@ SPECIFICATION Spec
 CONSTANTS
   Names = {"a", "b"}
   MaxBlocks = 3
-  FenceNames = {"p"}
+  FenceNames = {"p", "q"}
 INVARIANTS Compositional ProseInert Isolation ErrorContained Emit
 CHECK_DEADLOCK FALSE
